@@ -485,22 +485,37 @@ void scan_deps(const std::string& orig_portname, std::string cur_portname,
         return abs;
     };
 
+    const std::string scan_start = cur_portname;
+
     // this port and all parent ports can be enabled by another port, so check them all
     for(std::string::size_type last_slash;
         cur_portname.size() && (last_slash = cur_portname.find_last_of('/')) != std::string::npos;
           cur_portname.resize(last_slash))
     {
         const Port* port = ports.apropos(cur_portname.c_str());
-        if(port)
+        if(!port) // enumerated subtrees ("many#3/") are only found as "many1/"
+            port = ports.apropos((cur_portname + "/").c_str());
+        // an object can also be enabled through its own table:
+        // rSelf(..., rEnabledBy(x)), where x is relative to the object
+        const Port* self = (port && port->ports) ? (*port->ports)["self:"]
+                                                 : NULL;
+        for(int use_self = 0; use_self < 2; ++use_self)
+        if(use_self ? self : port)
         {
+            const Port* dep_port = use_self ? self : port;
+            const std::string dep_base = use_self ? cur_portname + "/"
+                                                  : cur_portname;
             const char* dep_types[3] = { "enabled by", "depends", "default depends" };
             for(const char* dep_type : dep_types)
             {
-                for(const char* enabled_by = port->meta()[dep_type]; enabled_by != NULL; enabled_by = strchr(enabled_by+1, ','))
+                for(const char* enabled_by = dep_port->meta()[dep_type]; enabled_by != NULL; enabled_by = strchr(enabled_by+1, ','))
                 {
                     if(*enabled_by==',')
                         ++enabled_by;
-                    std::string abs = rel2abs(enabled_by, cur_portname);
+                    std::string abs = rel2abs(enabled_by, dep_base);
+                    // the enabling port itself does not depend on itself
+                    if(abs == orig_portname || abs == scan_start)
+                        continue;
                     auto itr = message_map.find(abs);
                     if(itr != message_map.end())  // port is in the savefile
                     {
